@@ -64,6 +64,16 @@ def main():
     ctx.driver_ok = build.driver_ok
     suite.run(ctx)
     res = ctx.res
+    # extraction cross-check: a sample of this run's driver answers is re-evaluated by the kernel (vm_compute)
+    if build.driver_ok and common.XLOG:
+        import xcheck
+        k = 120 if tier == "quick" else 1200
+        sample = ctx.rnd.sample(common.XLOG, min(k, len(common.XLOG)))
+        sample = [x for x in sample if len(x[0]) < 2500]
+        n, bad = xcheck.cross_check(sample, prop)
+        for l, a, st in bad[:5]:
+            res.disagreements.append(dict(suite="extraction", input=dict(command=l[:300]), impl="(kernel evaluation by vm_compute differs)", model=a[:300], statement=str(st)[:400]))
+        res.notes.append(f"extraction cross-check: {n} driver answers (parse / print / eval / rule application) re-evaluated inside Coq by vm_compute: {len(bad)} differ")
     if coqchk is not None:
         res.notes.append("coqchk -o (independent checker) re-checked the property file and its dependencies; axioms of the whole context: "
                          + (", ".join(coqchk.get("axioms", [])) or "none") + "; no type-in-type, unsafe fixpoints or assumed positivity")
